@@ -1,4 +1,5 @@
-// VU-secret (C16): crates/s3s/src/auth/secret_key.rs — Debug and Serialize of SecretKey, verbatim.
+// VU-secret (C16): crates/s3s/src/auth/secret_key.rs — Debug, Serialize and Deserialize of SecretKey, verbatim.
+// Rewrites: R-attr, R-ret, R-static, R-etactor, R-dropwhere.
 #![allow(dead_code, unused)]
 use vstd::prelude::*;
 verus! {
@@ -64,6 +65,36 @@ pub mod serde {
                 //#-
         ;
     }
+    /// serde::Deserializer / serde::de::Error: the constructors of an error take texts — what they are given ends up in the message
+    pub trait Deserializer<'de>: Sized { type Error: de::Error; }
+    pub mod de {
+        use vstd::prelude::*;
+        use crate::{Text, allowed};
+        pub enum Unexpected<'a> { Str(&'a str), Other(&'a str) }
+        pub trait Error: Sized {
+            fn custom<T: Text>(msg: T) -> (r: Self)
+                requires
+                    //# C16:deserialize.only_constants_reach_an_error_message
+                    allowed(msg.text()),
+                    //#-
+            ;
+            fn invalid_value<T: Text>(unexp: Unexpected<'_>, exp: &T) -> (r: Self)
+                requires
+                    //# C16:deserialize.only_constants_reach_an_error_message
+                    (unexp matches Unexpected::Str(s) ==> allowed(s@)) && (unexp matches Unexpected::Other(s) ==> allowed(s@)),
+                    //#-
+            ;
+        }
+    }
+    pub trait Deserialize<'de>: Sized {
+        fn deserialize<D: Deserializer<'de>>(deserializer: D) -> (r: core::result::Result<Self, D::Error>);
+    }
+    impl<'de> Deserialize<'de> for String {
+        #[verifier::external_body]
+        fn deserialize<D: Deserializer<'de>>(deserializer: D) -> (r: core::result::Result<String, D::Error>)
+            ensures r matches Err(e) ==> crate::from_the_deserializer(e)
+        { unimplemented!() }
+    }
     impl Serialize for str {
         #[verifier::external_body]
         fn serialize<S: Serializer>(&self, serializer: S) -> (r: core::result::Result<S::Ok, S::Error>) { unimplemented!() }
@@ -74,6 +105,11 @@ pub mod serde {
     }
 }
 use crate::serde::Serialize;
+use crate::serde::Deserialize;
+
+/// an error value that the DESERIALIZER produced while reading the input (before any secret text existed as a value here):
+/// established only by the String shim below, never by an error constructor
+pub uninterp spec fn from_the_deserializer<E>(e: E) -> bool;
 
 //@@ extract T_SecretKey file=crates/s3s/src/auth/secret_key.rs item="struct SecretKey" rewrites=attr
 
@@ -81,6 +117,17 @@ impl SecretKey {
 //@@ extract expose file=crates/s3s/src/auth/secret_key.rs item="impl SecretKey/fn expose" rewrites=attr,ret
 //@@ extract debug_fmt file=crates/s3s/src/auth/secret_key.rs item="impl fmt::Debug for SecretKey/fn fmt" rewrites=attr,ret
 //@@ extract serialize file=crates/s3s/src/auth/secret_key.rs item="impl Serialize for SecretKey/fn serialize" rewrites=attr,ret
+//@@ extract new file=crates/s3s/src/auth/secret_key.rs item="impl SecretKey/fn new" rewrites=attr,ret
+}
+impl<'de> Deserialize<'de> for SecretKey {
+//@@ extract deserialize file=crates/s3s/src/auth/secret_key.rs item="impl<'de> Deserialize<'de> for SecretKey/fn deserialize" rewrites=attr,ret,etactor
+}
+impl vstd::std_specs::convert::FromSpecImpl<String> for SecretKey {
+    open spec fn obeys_from_spec() -> bool { false }
+    uninterp spec fn from_spec(v: String) -> Self;
+}
+impl From<String> for SecretKey {
+//@@ extract from_string file=crates/s3s/src/auth/secret_key.rs item="impl From<String> for SecretKey/fn from" rewrites=attr,ret
 }
 
 } // verus!
